@@ -32,9 +32,9 @@ def marker(tag):
     return ('expr', call('systemLog', sq(tag)))
 
 
-FUNCTION_NAME_STEMS = ['fn'] * 8 + ['returnOf', 'iffy', 'forEach', 'whileOk', 'breaker', 'continued', 'elsewhere', 'endifx', 'jumper', 'jumpifx',
+FUNCTION_NAME_STEMS = ['fn'] * 8 + ['gr\u00f6\u00dfe', 'na\u00efve_len', 'x\u00b2', 'n\u0663', 'returnOf', 'iffy', 'forEach', 'whileOk', 'breaker', 'continued', 'elsewhere', 'endifx', 'jumper', 'jumpifx',
                                   'included', 'functional', 'endfunctionx', 'elifx', 'endforx', 'endwhilex']
-KEYWORD_LIKE_VARIABLES = ['returned', 'ifs', 'forx', 'whilst', 'breaks', 'jumps', 'elsex', 'continues', 'includes', 'functions', 'endifs', 'inx', 'nulls', 'truex']
+KEYWORD_LIKE_VARIABLES = ['x\u00fcber', 'x\u0394', 'a\u00e9', 'returned', 'ifs', 'forx', 'whilst', 'breaks', 'jumps', 'elsex', 'continues', 'includes', 'functions', 'endifs', 'inx', 'nulls', 'truex']
 
 
 class ProgGen:
@@ -154,6 +154,17 @@ class ProgGen:
             branches = [(self.cond(ctx), self.block(sub, depth - 1)) for _ in range(nb)]
             els = self.block(sub, depth - 1) if r.random() < 0.5 else None
             return [('if', branches, els)]
+        if k < 0.75 and r.random() < 0.08:
+            # `while <literal>:` - the body runs once and leaves through `return` (inside a function) or `break`; nothing in the body can
+            # `continue` this loop
+            self.stats['while'] += 1
+            lit = r.choice([num(1), num(2), sq('x'), ('num', '0.5', 0.5)])
+            body = self.block(dict(sub, loops=[]), depth - 1)
+            if ctx['infunc'] and r.random() < 0.7:
+                body.append(('return', self.expr(ctx, 'any', 1) if r.random() < 0.7 else None))
+            else:
+                body.append(('break',))
+            return [('while', lit, body)]
         if k < 0.75:
             self.stats['while'] += 1
             self.nctr += 1
